@@ -455,7 +455,68 @@ theorem c11_resume_after_end (cap : Nat) (bs : BoltState) (hb : BoltInv bs) (r :
     have := (c11_scan_out_stored bs hb (r + 1)).1 b hbm
     exact ⟨this.1, this.2⟩
 
+/-! ### a stream that deregisters only its own registration (reports/cb_fix_2.diff) -/
+
+/-- `SyncChain` removes with the remover only where the store hands one out -/
+theorem tie_own_remover : (Gen.syncChainRemovesOwnOnly = true → Gen.callbackStreamRemover = true ∧ Gen.syncChainRegistersStream = true) := by
+  decide
+
+/-- **C11-d repaired: the end of one stream never detaches another.** With `Net.ownR`, a step of stream `sid` changes another
+stream `e` only by REGISTERING under the same address (then `e` is replaced and told so: close notice queued); whenever
+the step is not a registration — in particular when `sid` ends by a failed `Send` or a cancelled context after `e` has
+taken over the id — `e` is exactly as before: attached, same queue. -/
+theorem c11_own_end_keeps_others (h : Handover) (n : Net) (sid : String) (ev : Own) (e : Entry) (he : e ∈ n.streams)
+    (hne : (e.sid == sid) = false) :
+    e ∈ (n.ownR h sid ev).streams ∨ (∃ me, n.streams.find? (·.sid == sid) = some me ∧ e.addr = me.addr ∧
+      effectOf n.store ev me.s (Sys.step h ⟨n.store, me.s⟩ ev.toEv).s = .add ∧ { e with s := e.s.replaced } ∈ (n.ownR h sid ev).streams) := by
+  unfold Net.ownR
+  cases hf : n.streams.find? (·.sid == sid) with
+  | none => left; simpa using he
+  | some me =>
+    simp only
+    by_cases ha : (e.addr == me.addr) = true
+    · cases heff : effectOf n.store ev me.s (Sys.step h ⟨n.store, me.s⟩ ev.toEv).s with
+      | add =>
+        right
+        refine ⟨me, rfl, by simpa using ha, heff, ?_⟩
+        simp only [List.mem_map]
+        exact ⟨e, he, by simp [hne, ha]⟩
+      | none =>
+        left
+        simp only [List.mem_map]
+        exact ⟨e, he, by simp [hne, ha]⟩
+      | remove =>
+        left
+        simp only [List.mem_map]
+        exact ⟨e, he, by simp [hne, ha]⟩
+    · left
+      simp only [List.mem_map]
+      exact ⟨e, he, by simp [hne, ha]⟩
+
+/-- the schedule of `c11_detach_counterexample` with such a stream handler: a's failed `Send` leaves b's callback in place,
+b receives 6 and 7 -/
+theorem c11_detach_repaired :
+    let n0 : Net := ⟨memOf 16 3, [⟨"a", "8.8.8.8:1001", { frm := 0 }⟩, ⟨"b", "8.8.8.8:1001", { frm := 0 }⟩]⟩
+    let n := ((((((((((n0.ownR .asIs "a" .start).ownR .asIs "a" .register).put (tb 4)).ownR .asIs "b" .start).ownR .asIs "b" .register).put (tb 5)).ownR
+      .asIs "a" .sendFail).put (tb 6)).put (tb 7)).ownR .asIs "b" .deliver).ownR .asIs "b" .deliver
+    (n.streams.map fun e => (e.sid, roundsOf e.s.sent, e.s.attached, jobRounds e.s.queue,
+        (match e.s.phase with | .live => "live" | .done .sendError => "send-error" | _ => "other"))) =
+      [("a", [4], false, [], "send-error"), ("b", [5, 6], true, [7], "live")] ∧ n.store.head = 7 := by decide
+
 /-! ### non-vacuity -/
+
+example : ∃ (n : Net) (e : Entry), e ∈ n.streams ∧ (e.sid == "a") = false ∧ e ∈ (n.ownR .asIs "a" .sendFail).streams :=
+  ⟨⟨memOf 16 3, [⟨"a", "x", { frm := 0, phase := .live, attached := false, queue := [.beacon (tb 4)] }⟩,
+      ⟨"b", "x", { frm := 0, phase := .live, attached := true }⟩]⟩, ⟨"b", "x", { frm := 0, phase := .live, attached := true }⟩,
+    by simp, by decide, by
+      have := c11_own_end_keeps_others .asIs ⟨memOf 16 3, [⟨"a", "x", { frm := 0, phase := .live, attached := false, queue := [.beacon (tb 4)] }⟩,
+        ⟨"b", "x", { frm := 0, phase := .live, attached := true }⟩]⟩ "a" .sendFail ⟨"b", "x", { frm := 0, phase := .live, attached := true }⟩ (by simp) (by decide)
+      rcases this with h | ⟨me, hm, _, heff, _⟩
+      · exact h
+      · exfalso
+        simp at hm
+        subst hm
+        simp [effectOf, Sys.step, Strm.sendFail, Own.toEv] at heff⟩
 
 -- capacity 2: a live stream whose client does not read while rounds 3..8 are stored is ended at the 4th append; the client
 -- reads 3, 4, 5, then SyncChain returns ErrCallbackReplaced; rounds 6, 7, 8 are stored and were never sent …
